@@ -21,7 +21,7 @@ RULE = ("case = one generated declaration x K = 4-6 legal configurations in one 
         "distinct by (declaration, configuration set)")
 
 PROFILE = S.profile(renames=0.4, dups=0.05, attrs=0.1, sizes=[("small", 78), ("medium", 12), ("large", 6), ("full8", 4)],
-                    orders=["identity", "reverse", "perm", "by_name", "by_name"])
+                    orders=["identity", "reverse", "perm", "by_name", "by_name"], raw_idents=0.12)
 TOGGLE = ["names", "range", "Debug", "Display", "IntoStr", "from_str", "FromStr", "as_str", "iter", "next", "next_back",
           "MIN", "MAX", "try_from", "TryFrom", "into", "Into"]
 
